@@ -17,10 +17,23 @@ functions passed as values count as called.  Per (entry, cell) we keep
   wr  some write that can change the cell;   iw  only writes of literal constants identical to the import-time initialisation
 and emit  none | ro | idem | reset (wr, not rf) | rmw (wr and rf).
 Fail closed (ExtractError): initialiser / decorator / method of a mutable cell / escaping use / process-wide setter not known.
+
+Source shapes read as the same thing (trusted; each keeps the Python meaning):
+  * one level of helper inlining before the walk (private module-level helpers and closures with a straight-line body:
+    extractors/_norm_c16.py, A) -- so `locs = _locs_with_params(...)` is the code of the helper, in place;
+  * a function whose `return` hands back a plain name (or `x if c else y` of plain names) that aliases a mutable cell: the caller's
+    `t = f(...)` makes `t` a local alias of that cell exactly like `t = cell` (Summary.ret).  Any other way out (inside a tuple,
+    a list, an argument of an unknown callee, a function used as a value) still raises;
+  * `a, b = x, y` with displays of equal length on both sides aliases pairwise (all right-hand sides are evaluated first);
+  * a store into the a<i> keys of a dict cell in every spelling of _norm_c16 (C): `d["a%i" % i] = v` in an index loop,
+    `for name, v in zip(names, vals): d[name] = v`, `for i, v in enumerate(vals): d[f"a{i}"] = v`, `d[names[i]] = v`,
+    "a" + str(i), "a{}".format(i), `d.update(zip(names, vals))`, `d.update({"a%i" % i: ... for ...})`; `names` must be a list
+    every binding of which builds a<i> strings.  Any other `.update(...)` / subscript store stays a partial update (rmw).
 """
 import ast, glob, os, re
 import extract
 from extract import ExtractError, lstr
+from extractors import _norm_c16 as norm
 
 ENTRIES = [
     # label, module, function or class.* pattern, part of the pipeline the property speaks about
@@ -178,6 +191,7 @@ class Summary(object):
         self.defw = set()
         self.forced = set()      # a<i> key groups (re)bound so far in this call (definite although the loop is guarded by max_param > 0)
         self.reach = set()
+        self.ret = set()         # mutable cells the function may hand back as its return value (`return <name aliasing the cell>`)
         self.tainted = False
 
     def absorb(self, other, defw, cond):
@@ -205,6 +219,7 @@ class Analysis(object):
         self.memo = {}
         self.stack = []
         self.methods = {}       # method name -> [(module, class, name)]
+        self.inlined = []       # (module, caller, helper, line) of every helper call replaced by the helper's body
         self.load()
 
     # ------------------------------------------------------------------ loading
@@ -219,7 +234,9 @@ class Analysis(object):
             name = rel[:-3].replace(os.sep, ".")
             if name.endswith(".__init__"):
                 name = name[:-9]
-            self.mods[name] = dict(rel=rel, tree=extract._parse(self.stage, rel), imports={}, funcs={}, classes={}, cells={}, name=name)
+            tree, inl = norm.inline_helpers(extract._parse(self.stage, rel))
+            self.inlined += [(name,) + x for x in inl]
+            self.mods[name] = dict(rel=rel, tree=tree, imports={}, funcs={}, classes={}, cells={}, name=name)
         for m in self.mods.values():
             self.scan_imports(m)
         for m in self.mods.values():
@@ -606,6 +623,9 @@ class Walker(object):
                 for a_ in n.names:
                     full = n.module + "." + a_.name
                     self.local_imports[a_.asname or a_.name] = ("mod", full) if full in an.mods else ("name", n.module, a_.name)
+        if "kf" not in info:
+            info["kf"] = norm.KeyFlow(self.fn)
+        self.kf = info["kf"]
         self.selfname = self.params[0] if info["cls"] and self.params and not any(
             ast.unparse(d) in ("staticmethod",) for d in self.fn.decorator_list) else None
 
@@ -657,6 +677,15 @@ class Walker(object):
         if isinstance(st, ast.Expr):
             self.ev(st.value, defw, "read"); return defw
         if isinstance(st, ast.Assign):
+            if isinstance(st.value, (ast.Tuple, ast.List)) and all(
+                    isinstance(t, (ast.Tuple, ast.List)) and len(t.elts) == len(st.value.elts) for t in st.targets) \
+                    and not any(isinstance(x, ast.Starred) for t in st.targets for x in list(t.elts) + list(st.value.elts)):
+                # `a, b = x, y`: every right-hand side is evaluated first (left to right), then a = x, b = y
+                ds = [self.ev(v, defw, "assign") for v in st.value.elts]
+                for t in st.targets:
+                    for x, d in zip(t.elts, ds):
+                        self.store(x, d, defw, st)
+                return defw
             d = self.ev(st.value, defw, "assign")
             for t in st.targets:
                 self.store(t, d, defw, st)
@@ -705,7 +734,13 @@ class Walker(object):
             return self.block(st.finalbody, after)
         if isinstance(st, ast.Return):
             if st.value is not None:
-                self.ev(st.value, defw, "return")
+                # a plain name (or `x if c else y` of names) that aliases a mutable cell is handed to the caller, which goes on
+                # tracking it as a local alias; inside anything else (a tuple, a call argument ...) it still escapes
+                plain = isinstance(st.value, (ast.Name, ast.Attribute)) or (isinstance(st.value, ast.IfExp) and all(
+                    isinstance(x, (ast.Name, ast.Attribute, ast.Constant)) for x in (st.value.body, st.value.orelse)))
+                d = self.ev(st.value, defw, "retalias" if plain else "return")
+                if plain:
+                    self.S.ret |= self.mutable_ids(d) if d and d[0] == "cell" else set()
             return defw
         if isinstance(st, (ast.Raise,)):
             for e in (st.exc, st.cause):
@@ -945,7 +980,7 @@ class Walker(object):
                     self.read(sub, defw, line, what)
 
     def escape_check(self, d, role, e):
-        if role in ("read", "base", "assign", "arg", "callee"):
+        if role in ("read", "base", "assign", "arg", "callee", "retalias"):
             return
         mids = self.mutable_ids(d)
         if mids:
@@ -955,6 +990,9 @@ class Walker(object):
     def callback(self, key, defw, line):
         """a function used as a value: it may be called any time later in this call"""
         s = self.an.summary(key, self.an.default_binding(key))
+        if s.ret:
+            raise ExtractError("%s.%s, which returns the mutable cell %s, is used as a value in %s.%s line %d: aliasing not tracked" % (
+                key[0], key[1], sorted(s.ret)[0], self.key[0], self.key[1], line))
         self.S.tainted |= s.tainted
         self.S.absorb(s, set(defw), True)
 
@@ -1078,8 +1116,8 @@ class Walker(object):
             return None
         k = f[0]
         if k == "func":
-            self.invoke(f[1], e, argd, defw, bound=(len(f) > 2))
-            return None
+            s = self.invoke(f[1], e, argd, defw, bound=(len(f) > 2))
+            return self.returned(s.ret, role, e, defw)
         if k == "class":
             init = None
             for m2, ci in an.class_mro(f[1][0], f[1][1]):
@@ -1114,8 +1152,10 @@ class Walker(object):
             cands = an.methods.get(name, [])
             base_is_super = isinstance(e.func, ast.Attribute) and isinstance(e.func.value, ast.Call) and ast.unparse(e.func.value.func) == "super"
             if cands:
+                rets = set()
                 for mn, cn, fn in cands:
-                    self.invoke((mn, "%s.%s" % (cn, fn)), e, argd, defw, bound=True, may=(len(cands) > 1 or not base_is_super))
+                    rets |= self.invoke((mn, "%s.%s" % (cn, fn)), e, argd, defw, bound=True, may=(len(cands) > 1 or not base_is_super)).ret
+                return self.returned(rets, role, e, defw)
             elif mut_args:
                 if name in PURE_METHODS or name in ("format", "join", "subs", "xreplace", "replace", "evalf"):
                     for _, d, _ in argd:
@@ -1175,6 +1215,17 @@ class Walker(object):
             self.S.absorb(s, set(defw), True)
         else:
             self.S.absorb(s, defw, False)
+        return s
+
+    def returned(self, ids, role, e, defw):
+        """descriptor of the value of a call of an esr function that may return (an alias of) the mutable cells `ids`"""
+        if not ids:
+            return None
+        d = ("cell", set(ids))
+        if role in ("read", "value", "return"):
+            self.read_all_keys(d, defw, e.lineno, "whole dict used")
+        self.escape_check(d, role, e)
+        return d
 
     def ext_call(self, dotted, e, argd, mut_args, defw):
         an = self.an
@@ -1217,7 +1268,10 @@ class Walker(object):
             if not c.mutable:
                 if c.cls == "handle" or c.cls in ("sympy", "scalar", "extref", "func", "unknown"):
                     continue
-            if name == "clear" and how == "cell":
+            if name == "update" and how == "cell" and c.cls == "dict" and self.kf.update_of_keys(e) is not None:
+                # D.update(zip(<a<i> names>, values)) / D.update({"a%i" % i: ... for ...}): item-by-item stores into a<i> keys only
+                self.akey_store(c, line)
+            elif name == "clear" and how == "cell":
                 self.write(c.id, RESET, defw, line, ".clear()")
                 sub = c.id + "[a<i>]"
                 if sub in self.an.cells:
@@ -1274,13 +1328,8 @@ class Walker(object):
             self.ev(t.slice, defw, "value")
             if base and base[0] in ("cell", "cellitem"):
                 for c in self.cell_obj(base[1]):
-                    if self.akey(t.slice) and base[0] == "cell" and c.cls == "dict":
-                        sub = c.id + "[a<i>]"
-                        an.new_cell(sub, c.kind, "dict", True, c.where)
-                        # every a<i> the formulas of this call mention is (re)bound by this loop (C16 locs_keys_written)
-                        self.S.wr.add(sub)
-                        an.site(sub, self.key, line, "a<i> keys (re)bound [reset]")
-                        self.S.forced.add(sub)
+                    if self.kf.is_key(t.slice) and base[0] == "cell" and c.cls == "dict":
+                        self.akey_store(c, line)
                     elif c.mutable or c.kind == "process":
                         self.write(c.id, PARTIAL, defw, line, "subscript store")
                         sub = c.id + "[a<i>]"
@@ -1347,6 +1396,15 @@ class Walker(object):
             return
         raise ExtractError("store target %s at %s.%s line %d not modelled" % (type(t).__name__, self.key[0], self.key[1], line))
 
+    def akey_store(self, c, line):
+        """a store into a<i> keys of the dict cell c"""
+        sub = c.id + "[a<i>]"
+        self.an.new_cell(sub, c.kind, "dict", True, c.where)
+        # every a<i> the formulas of this call mention is (re)bound by this loop (C16 locs_keys_written)
+        self.S.wr.add(sub)
+        self.an.site(sub, self.key, line, "a<i> keys (re)bound [reset]")
+        self.S.forced.add(sub)
+
     def ev_target_base(self, e, defw):
         """base object of a store target, without counting a read of the cell's content"""
         if isinstance(e, ast.Name):
@@ -1396,25 +1454,10 @@ class Walker(object):
                 return ("class", (self.key[0], self.info["cls"]))
             if isinstance(e.func, ast.Name) and e.func.id in FORBIDDEN_BUILTINS:
                 raise ExtractError("store through %s() in %s.%s line %d" % (e.func.id, self.key[0], self.key[1], e.lineno))
-            self.ev(e, defw, "read")
-            return None
+            d = self.ev(e, defw, "base")
+            return d if d and d[0] == "cell" else None
         self.ev(e, defw, "read")
         return None
-
-    @staticmethod
-    def akey(s):
-        """subscript that names a parameter key a<i>"""
-        if isinstance(s, ast.Constant) and isinstance(s.value, str):
-            return bool(re.match(r"^a\d+$", s.value))
-        if isinstance(s, ast.BinOp) and isinstance(s.op, ast.Mod) and isinstance(s.left, ast.Constant) and isinstance(s.left.value, str):
-            return bool(re.match(r"^a%[id]$", s.left.value))
-        if isinstance(s, ast.JoinedStr) and len(s.values) == 2 and isinstance(s.values[0], ast.Constant) and s.values[0].value == "a" \
-                and isinstance(s.values[1], ast.FormattedValue):
-            return True
-        if isinstance(s, ast.Call) and isinstance(s.func, ast.Attribute) and s.func.attr == "format" and isinstance(s.func.value, ast.Constant) \
-                and s.func.value.value in ("a{}", "a{0}", "a{:d}"):
-            return True
-        return False
 
 
 # ----------------------------------------------------------------------------------------------------------------------
@@ -1436,19 +1479,32 @@ def analyse(stage):
     for mn, m in an.mods.items():
         infos = list(m["funcs"].items()) + [("%s.%s" % (cn, k), v) for cn, ci in m["classes"].items() for k, v in ci["methods"].items()]
         for q, info in infos:
+            kf = info.setdefault("kf", norm.KeyFlow(info["node"]))
             for n in ast.walk(info["node"]):
-                if isinstance(n, ast.Subscript) and isinstance(n.ctx, ast.Store) and Walker.akey(n.slice):
+                recv = None
+                if isinstance(n, ast.Subscript) and isinstance(n.ctx, ast.Store) and kf.is_key(n.slice):
+                    recv = n.value
+                elif isinstance(n, ast.Call):
+                    recv = kf.update_of_keys(n)
+                if recv is not None:
                     w = Walker(an, m, info, (mn, info["qual"]), dict(an.default_binding((mn, info["qual"]))))
-                    # local aliases `locs = sympy_locs`
-                    for a in ast.walk(info["node"]):
-                        if isinstance(a, ast.Assign) and len(a.targets) == 1 and isinstance(a.targets[0], ast.Name) and isinstance(a.value, (ast.Name, ast.Attribute)):
-                            try:
-                                d = w.ev_target_base(a.value, set())
-                            except ExtractError:
-                                d = None
-                            if d and d[0] == "cell":
-                                w.alias.setdefault(a.targets[0].id, set()).update(d[1])
-                    base = w.ev_target_base(n.value, set())
+                    # local aliases `locs = sympy_locs` (also through another local alias: to a fixed point)
+                    grew = True
+                    while grew:
+                        grew = False
+                        for a in ast.walk(info["node"]):
+                            if isinstance(a, ast.Assign) and len(a.targets) == 1 and isinstance(a.targets[0], ast.Name) and isinstance(a.value, (ast.Name, ast.Attribute)):
+                                try:
+                                    d = w.ev_target_base(a.value, set())
+                                except ExtractError:
+                                    d = None
+                                if d and d[0] == "cell" and not set(d[1]) <= w.alias.get(a.targets[0].id, set()):
+                                    w.alias.setdefault(a.targets[0].id, set()).update(d[1])
+                                    grew = True
+                    try:
+                        base = w.ev_target_base(recv, set())
+                    except ExtractError:
+                        base = None
                     if base and base[0] == "cell":
                         for c in w.cell_obj(base[1]):
                             if c.cls == "dict":
